@@ -10,17 +10,26 @@ partition bookkeeping of `PlanJoinTablesQuery`; and the planners around it as fu
 `plan_sub_select`, the `PlanJoin.plan` dispatch, the time-series planner's step emission, and `from_query`
 with the DML planners — over a skeleton language (`Sel`, `Stmt`) whose constructors are the branches taken.
 
-What is proved (all skeletons, by induction):
+What is proved (all skeletons, by induction) — every theorem about live code is for `fixed = true`, the
+`add_plan_step` that closes an open partition before a step that cannot be partitioned (the live variant is pinned
+on every run by the obligation `pin:add_plan_step-variant-repaired` of `tools/props/c09.py`):
 * `C09_partial` — `from_query` on every statement skeleton, started from the empty plan, raises a user-level
   error or returns a plan numbered by position, forward-only (incl. sub-steps of containers), non-empty, whose
   returned step is the last one.  *Partial* w.r.t. the property text because (i) which branch a real
   query × catalog takes and (ii) the abstraction of real steps to `(class, step_num, references)` are outside
-  the model — tied by the correspondence streams and watched by the impl-level probe of `tools/props/c09.py`.
+  the model — tied by the correspondence streams (every constructor of `Sel` / `Stmt` occurs in them) and watched by
+  the impl-level probe of `tools/props/c09.py`.
 * `C09_plan_select` — the same for `plan_select` in any environment of already planned results.
-* `C09_add_step` (T9.1), `C09_join` (T9.2 for the current `add_plan_step`), `C09_join_unrepaired`
-  (T9.2 for the code before commit faf0f40 under the decidable hypothesis `noFallThrough`),
-  `C09_error_class` (T9.3 at the join level, from *any* plan).
-* `C09_witness_*`: the defect of the unrepaired `add_plan_step` (KF-C09-1, fixed by faf0f40).
+* `C09_add_step` (T9.1), `C09_join` (T9.2, live variant, no exclusion).
+* `C09_error_class` (T9.3 at the join level, from *any* plan, either variant) — has the hypothesis that the planners of
+  sub-select operands raise user-level errors only (`leavesAll OperandNoInt`); from well-formed plans the error class is
+  part of `C09_partial` / `C09_join` without that hypothesis.
+* `C09_cte_lookup` — the name dictionary of `plan_cte` / `get_integration_select_step` for any consistent key spelling;
+  `C09_cte_keys_necessary`: with inconsistent spelling (a hypothetical incomplete refactor, not the live code) the lookup raises.
+* History / regression (the FORMER `add_plan_step`, `fixed = false`, which no longer exists in the library):
+  `C09_join_unrepaired` (the invariant held outside the fall-through class `¬ noFallThrough`),
+  `C09_regress_unrepaired_plan`, `C09_regress_unrepaired_{1,2,3}` (what it emitted inside that class), and
+  `C09_regress_repaired_plan`, `C09_regress_repaired_{1,3}` (what the live variant emits for the same inputs).
 -/
 namespace MindsVerif.Props.C09
 open MindsVerif.Plan
@@ -81,7 +90,7 @@ theorem C09_join (t : JT) (wrap : Bool) (params : List SNum) (plan : List Step) 
     C09_body (planJoin true t wrap params) plan :=
   body_of_good (planJoin_good true plan.length t wrap params ht hp (Or.inl rfl)) plan (Nat.le_refl _) hok
 
-/-- **T9.2 (before faf0f40)**: without `close_partition` on the fall-through path the invariant holds for every
+/-- **History (former `add_plan_step`)**: without `close_partition` on the fall-through path the invariant held for every
 join in which no table / sub-select operand follows a model that carries `partition_size` -/
 theorem C09_join_unrepaired (t : JT) (wrap : Bool) (params : List SNum) (plan : List Step)
     (hok : stepsOK 0 plan = true) (ht : TreeOK plan.length t) (hp : params.all (refOKTop plan.length) = true)
@@ -112,11 +121,11 @@ example : ∀ m, CteKeys.folded.test m = CteKeys.folded.fetch m := fun _ => rfl
 
 /-- an incomplete case-insensitive refactor (store and test folded, access as written): `WITH Ab AS … FROM Ab`
 ends in `KeyError` — the hypothesis of `C09_cte_lookup` is necessary -/
-theorem C09_witness_cte_keys :
+theorem C09_cte_keys_necessary :
     ¬ C09_body (planTableRef ⟨lowerName, lowerName, id⟩ (cteStore ⟨lowerName, lowerName, id⟩ [] [65, 98] (.top 0))
         [65, 98] []) [⟨.fetch, some (.top 0), [], []⟩] := by decide
 
-/-! ### witnesses: the defect of the unrepaired `add_plan_step` (KF-C09-1, fixed by faf0f40) -/
+/-! ### regression theorems: the former `add_plan_step` (`fixed = false`, KF-C09-1, repaired) vs the live one -/
 
 /-- `t JOIN model JOIN t2 ON t.id = t2.id USING partition_size=N` -/
 def w1 : JT := .join (.join (.leaf (.table false [] [])) (.leaf (.predictor false true))) (.leaf (.table false [0] []))
@@ -125,9 +134,9 @@ def w1 : JT := .join (.join (.leaf (.table false [] [])) (.leaf (.predictor fals
 def w3 : JT := .join (.join (.leaf (.table false [] [])) (.leaf (.predictor false true)))
   (.leaf (.subselect true (pStep .fetch [])))
 
-/-- the unrepaired code emitted, for `w1`, exactly the plan observed on the planner before faf0f40: step 1 is a
+/-- the FORMER code emitted, for `w1`, exactly the plan that was observed on the planner before the repair: step 1 is a
 map-reduce step whose third sub-step consumes `Result(3)`, and the returned step is step 1 of 4 -/
-theorem C09_witness_1 :
+theorem C09_regress_unrepaired_plan :
     (planJoin false w1 false [] []).toOption = some (
       [⟨.fetch, some (.top 0), [], []⟩,
        ⟨.mapreduce, some (.top 1), [.top 0],
@@ -137,16 +146,28 @@ theorem C09_witness_1 :
        ⟨.subselect, some (.top 2), [.top 0], []⟩,
        ⟨.fetch, some (.top 3), [.top 2], []⟩], .top 1) := by decide
 
-theorem C09_witness_1_not : ¬ C09_body (planJoin false w1 false []) [] := by decide
-theorem C09_witness_2_not : ¬ C09_body (planJoin false w1 true []) [] := by decide
-theorem C09_witness_3_not : ¬ C09_body (planJoin false w3 false []) [] := by decide
+theorem C09_regress_unrepaired_1 : ¬ C09_body (planJoin false w1 false []) [] := by decide
+theorem C09_regress_unrepaired_2 : ¬ C09_body (planJoin false w1 true []) [] := by decide
+theorem C09_regress_unrepaired_3 : ¬ C09_body (planJoin false w3 false []) [] := by decide
 
-/-- the witnesses are exactly in the class excluded from `C09_join_unrepaired` … -/
+/-- the LIVE variant on the same input: the partition is closed before the second table is fetched; the join of the
+partition result with that table is an ordinary last step (this is the plan the real planner returns today) -/
+theorem C09_regress_repaired_plan :
+    (planJoin true w1 false [] []).toOption = some (
+      [⟨.fetch, some (.top 0), [], []⟩,
+       ⟨.mapreduce, some (.top 1), [.top 0],
+         [⟨.apply, some (.sub 1 0), [.top 0]⟩,
+          ⟨.join, some (.sub 1 1), [.top 0, .sub 1 0]⟩]⟩,
+       ⟨.subselect, some (.top 2), [.top 0], []⟩,
+       ⟨.fetch, some (.top 3), [.top 2], []⟩,
+       ⟨.join, some (.top 4), [.top 1, .top 3], []⟩], .top 4) := by decide
+
+theorem C09_regress_repaired_1 : C09_body (planJoin true w1 false []) [] := by decide
+theorem C09_regress_repaired_3 : C09_body (planJoin true w3 false []) [] := by decide
+
+/-- these inputs are exactly in the class excluded from `C09_join_unrepaired` -/
 example : noFallThrough false (seqOf w1) = false := by decide
 example : noFallThrough false (seqOf w3) = false := by decide
-/-- … and the current code handles them -/
-example : C09_body (planJoin true w1 false []) [] := by decide
-example : C09_body (planJoin true w3 false []) [] := by decide
 
 /-! ### non-vacuity / concrete instances of the skeleton language -/
 
